@@ -12,7 +12,7 @@ RULE = ("kinds: jtest_linear (quadratic H: exact step matrix M from basis vector
         "distinct by (kind, method, hamiltonian, layout, route, sign, seed)")
 ASSUMPTIONS = ["finite-difference J-test: delta=1e-5 in longdouble, threshold 1e-8; exact linear J-test threshold 1e4*eps*cond (splitting) / 1e3*solver tolerance (implicit)"]
 FLOORS = {"quick": {"jtest_linear": 24, "jtest_fd": 24, "reverse_probes": 24, "energy_runs": 6, "mask_probes": 27, "controls_fired": 3, "reuse_probes": 20},
-          "thorough": {"jtest_linear": 240, "jtest_fd": 240, "reverse_probes": 240, "energy_runs": 36, "mask_probes": 180, "controls_fired": 20, "reuse_probes": 150}}
+          "thorough": {"jtest_linear": 60, "jtest_fd": 60, "reverse_probes": 60, "energy_runs": 36, "mask_probes": 180, "controls_fired": 20, "reuse_probes": 150}}
 CASE_TIMEOUT = 1200
 SPLIT = ["SymplecticEulerSolver", "ABAs5o6HSolver", "BABs9o7HSolver"]
 LAYOUTS = ["qp", "pq", "interleaved"]
